@@ -9,6 +9,7 @@ from ..facts import AnalysisBroken
 from ..engine import Engine, run_entry, mk_obj, new_state
 from ..absint import Val
 from ..port import PortModel
+from ..facts import WORD as W
 from ..terms import C, ZERO, INF, short, is_const, Dom
 from .. import mem
 from .frame_common import FrameSetup, run_regions, REGIONS, live_heap, _slim_ob, effects, BLOCK_UNIT
@@ -208,9 +209,9 @@ def tick_entry(prog, ms_list=None, es_list=None):
             po = mk_obj(st, 'in:tickport', prec_.size, kind='heap', default='sym')
             mk_obj(st, 'in:last_tx', 8, kind='heap', default='sym')
             mk_obj(st, 'ext:netif', 1, kind='ext', default='unknown')
-            po.cells[((), prec_.field('network_interface')[1])] = (8, ('pset', ('sym', 'tp.ni', 0, 0), (ZERO, ('ptr', 'ext:netif', ZERO))))
-            po.cells[((), prec_.field('last_hello_tx_ms')[1])] = (8, ('pset', ('sym', 'tp.ltx', 0, 0), (ZERO, ('ptr', 'in:last_tx', ZERO))))
-            po.cells[((), prec_.field('send_hello')[1])] = (8, ('pset', ('sym', 'tp.sh', 0, 0), (ZERO, ('fn', 'send_hello'))))
+            po.cells[((), prec_.field('network_interface')[1])] = (W, ('pset', ('sym', 'tp.ni', 0, 0), (ZERO, ('ptr', 'ext:netif', ZERO))))
+            po.cells[((), prec_.field('last_hello_tx_ms')[1])] = (W, ('pset', ('sym', 'tp.ltx', 0, 0), (ZERO, ('ptr', 'in:last_tx', ZERO))))
+            po.cells[((), prec_.field('send_hello')[1])] = (W, ('pset', ('sym', 'tp.sh', 0, 0), (ZERO, ('fn', 'send_hello'))))
 
             def setup(I, st2):
                 ap = ix.parse_type('automata *')
@@ -265,7 +266,7 @@ def esp32_entry():
         c = mk_obj(st, 'in:ctx', crec.size, kind='heap', default='sym')
         for f in ('mapping', 'session', 'enumeration'):
             mk_obj(st, 'ext:' + f, 1, kind='ext', default='unknown')
-            c.cells[((), crec.field(f)[1])] = (8, ('ptr', 'ext:' + f, ZERO))
+            c.cells[((), crec.field(f)[1])] = (W, ('ptr', 'ext:' + f, ZERO))
         return [Val(ix.parse_type('lltd_esp32_ctx_t *'), ('pset', ('sym', 'a.c', 0, 0), (ZERO, ('ptr', 'in:ctx', ZERO)))),
                 Val(ix.parse_type('const void *'), ('pset', ('sym', 'a.f', 0, 0), (ZERO, ('ptr', 'frame', ZERO)))),
                 Val(ix.parse_type('unsigned long'), LEN)]
